@@ -181,8 +181,13 @@ func cmdRun(args []string) int {
 	}
 	if *tier == "thorough" {
 		cfg.TimeoutMs, cfg.MaxSteps, cfg.MaxPaths, cfg.Budget = 60000, 20000000, 2000000, 40*time.Minute
+		cfg.Witnesses = 32
 	} else {
 		cfg.TimeoutMs, cfg.MaxSteps, cfg.MaxPaths, cfg.Budget = 10000, 5000000, 200000, 5*time.Minute
+		cfg.Witnesses = 8
+	}
+	if *noReplay {
+		cfg.Witnesses = 0
 	}
 	if *timeout > 0 {
 		cfg.TimeoutMs = *timeout
@@ -207,6 +212,11 @@ func cmdRun(args []string) int {
 		results = append(results, r)
 		fmt.Printf("harness %s mode=%s paths=%d infeasible=%d undecided=%d unwind=%d queries=%d (sat %d unsat %d unknown %d) solver=%.1fs wall=%.1fs\n",
 			r.Name, r.Mode, r.Paths, r.Infeasible, len(r.Undecided), len(r.Unwind), r.Queries, r.Sat, r.Unsat, r.Unknown, r.SolverTime.Seconds(), r.Wall.Seconds())
+	}
+	if !*noReplay {
+		runWitnesses(p, *prop, *tier, results)
+	}
+	for _, r := range results {
 		for _, u := range uniqStrings(r.Undecided, 8) {
 			fmt.Println("  UNDECIDED:", u)
 		}
@@ -440,7 +450,11 @@ func writeEvidence(prop, tier string, seed int, rs []*HarnessResult, wall time.D
 	var harn []interface{}
 	exhaustive := true
 	var undec, unwind []string
+	witN, witOK, witSkip := 0, 0, 0
 	for _, r := range rs {
+		witN += len(r.Witnesses)
+		witOK += r.WitOK
+		witSkip += r.WitSkip
 		states += r.Paths
 		trans += r.Decisions
 		queries += r.Queries
@@ -509,7 +523,8 @@ func writeEvidence(prop, tier string, seed int, rs []*HarnessResult, wall time.D
 		"coverage": map[string]interface{}{
 			"states":                        states,
 			"transitions":                   trans,
-			"traces_validated_against_impl": 0,
+			"traces_validated_against_impl": witOK,
+			"native_cross_validation":       map[string]interface{}{"sampled_paths": witN, "native_run_agrees": witOK, "not_comparable": witSkip, "rule": "for a sample of completed paths (1st, 2nd, 4th, 8th, ... and every 61st, capped per harness) the solver's model of the path condition is run through the natively compiled harness against the real package; agreement = the native run also passes every assertion; a native failure is reported as a violation; not comparable = the native run left the input domain (an over-approximated step of the encoding, e.g. relaxed float rounding, picked a value the real code does not produce) or the harness is engine-only (captured XML value)"},
 			"samples":                       samples,
 			"evaluations":                   queries,
 			"distinct_nontrivial":           nontriv,
@@ -548,4 +563,111 @@ func round2(f float64) float64 {
 
 func cmdValidate(args []string) int {
 	return validate()
+}
+
+// runWitnesses re-runs, natively, the sampled model inputs of completed paths (one `go test` for all harnesses). A
+// native assertion failure or panic on such an input is a concrete failing run of the real code: it is turned into a
+// violation candidate (then replayed and matched against the known findings like any other).
+func runWitnesses(p *Program, prop, tier string, rs []*HarnessResult) {
+	type wit struct {
+		Harness string  `json:"harness"`
+		Vector  []int64 `json:"vector"`
+		Kinds   string  `json:"kinds"`
+	}
+	var batch []wit
+	var owner []*HarnessResult
+	var vecs [][]VecEntry
+	names := map[string]bool{}
+	for _, r := range rs {
+		for _, w := range r.Witnesses {
+			x := wit{Harness: r.Name, Vector: []int64{}}
+			for _, v := range w {
+				x.Vector = append(x.Vector, v.Val)
+				x.Kinds += v.Kind[:1]
+			}
+			batch = append(batch, x)
+			owner = append(owner, r)
+			vecs = append(vecs, w)
+			names[r.Name] = true
+		}
+	}
+	if len(batch) == 0 {
+		return
+	}
+	tmp, err := os.MkdirTemp("", "verif-witness-")
+	if err != nil {
+		return
+	}
+	defer os.RemoveAll(tmp)
+	bf := filepath.Join(tmp, "batch.json")
+	b, _ := json.Marshal(map[string]interface{}{"tier": tier, "runs": batch})
+	os.WriteFile(bf, b, 0o644)
+	overlay := map[string]string{}
+	files, _ := filepath.Glob(filepath.Join(verifDir, "harness", "zz_verif_*.go"))
+	for _, f := range files {
+		overlay[filepath.Join(p.RepoDir, filepath.Base(f))] = f
+	}
+	var tb strings.Builder
+	tb.WriteString("package astisub\n\nimport \"testing\"\n\nfunc TestVerifWitness(t *testing.T) {\n\tvwitnessRun(t, ")
+	tb.WriteString(strconv.Quote(bf))
+	tb.WriteString(", map[string]func(){\n")
+	var ns []string
+	for n := range names {
+		ns = append(ns, n)
+	}
+	sort.Strings(ns)
+	for _, n := range ns {
+		fmt.Fprintf(&tb, "\t\t%q: %s,\n", n, n)
+	}
+	tb.WriteString("\t})\n}\n")
+	tf := filepath.Join(tmp, "zz_verif_witness_test.go")
+	os.WriteFile(tf, []byte(tb.String()), 0o644)
+	overlay[filepath.Join(p.RepoDir, "zz_verif_witness_test.go")] = tf
+	ov, _ := json.Marshal(map[string]interface{}{"Replace": overlay})
+	ovf := filepath.Join(tmp, "overlay.json")
+	os.WriteFile(ovf, ov, 0o644)
+	cmd := exec.Command("timeout", "600", "go", "test", "-vet=off", "-count=1", "-v", "-run", "^TestVerifWitness$", "-overlay", ovf, ".")
+	cmd.Dir = p.RepoDir
+	cmd.Env = append(os.Environ(), "GOFLAGS=-mod=mod", "GOPROXY=off", "GOSUMDB=off", "GOTOOLCHAIN=local", "VERIF_TIER="+tier)
+	out, _ := cmd.CombinedOutput()
+	seen := 0
+	for _, line := range strings.Split(string(out), "\n") {
+		if !strings.HasPrefix(line, "VERIF-WITNESS ") {
+			continue
+		}
+		f := strings.SplitN(line, " ", 4)
+		if len(f) < 3 {
+			continue
+		}
+		idx, err := strconv.Atoi(f[1])
+		if err != nil || idx < 0 || idx >= len(batch) {
+			continue
+		}
+		seen++
+		r := owner[idx]
+		switch f[2] {
+		case "OK":
+			r.WitOK++
+		case "SKIP":
+			r.WitSkip++
+		case "FAIL":
+			res := ""
+			if len(f) > 3 {
+				res = f[3]
+			}
+			r.WitFail = append(r.WitFail, res)
+			v := Violation{Harness: r.Name, Kind: "assert", Label: strings.TrimPrefix(res, "assert: "), Msg: "native run of a sampled path input fails where the engine passed", Pos: "(native)", Vec: vecs[idx]}
+			if strings.HasPrefix(res, "panic: ") {
+				v.Kind, v.Label = "panic", "panic: "+normPanic(strings.TrimPrefix(res, "panic: "))
+			}
+			r.Viols = append(r.Viols, v)
+		}
+	}
+	if seen != len(batch) {
+		msg := string(out)
+		if len(msg) > 1500 {
+			msg = msg[len(msg)-1500:]
+		}
+		fmt.Printf("  NOTE: native cross-validation incomplete (%d of %d sampled inputs ran): %s\n", seen, len(batch), msg)
+	}
 }
